@@ -42,6 +42,7 @@ import CatVerif.Proofs.Resolve
 import CatVerif.Proofs.Log
 import CatVerif.Proofs.ResolveLine
 import CatVerif.Proofs.Readers
+import CatVerif.Proofs.Steps
 namespace Cat
 open St
 
@@ -406,5 +407,11 @@ theorem C02_suffix_generated (D : Desc) :
     parseCommand = Gen.parse_command ∧ waitReadAcknowledge = Gen.wait_read_acknowledge D ∧
     waitTestAcknowledge = Gen.wait_test_acknowledge :=
   ⟨parseCommand_generated, waitReadAcknowledge_generated D, waitTestAcknowledge_generated⟩
+
+/-- the dispatch on the request type is the text regenerated from `command_found` /
+`command_not_found` (translator item T9); the model's ghost check "a command is selected" aside -/
+theorem C02_dispatch_generated (D : Desc) (s : St) :
+    commandFound D s = Gen.command_found D (s.chkUb s.cmd.isSome) ∧ commandNotFound D s = Gen.command_not_found D s :=
+  ⟨commandFound_generated D s, commandNotFound_generated D s⟩
 
 end Cat
